@@ -7,6 +7,7 @@ namespace; `clone` copies into a named register.
 -/
 import Lean.Data.Json
 import Jap.Core.Namespace
+import Jap.Core.NamespaceMeta
 import Jap.Gen.NsTables
 
 open Lean Jap.NS
@@ -145,6 +146,13 @@ def step (st : St) (j : Json) : Json × St :=
   | "items" =>
     let b := getBool j "branches"
     outState (.arr ((items b st.cur).map fun kv => Json.arr #[.str kv.1, vToJson kv.2]).toArray) st.cur
+  | "keys" => outState (.arr ((keys (getBool j "branches") st.cur).map Json.str).toArray) st.cur
+  | "values" => outState (.arr ((values (getBool j "branches") st.cur).map vToJson).toArray) st.cur
+  | "bool" => outState (.bool (nonEmpty st.cur)) st.cur
+  | "as_flat" => outState (.arr ((asFlat st.cur).map fun kv => Json.arr #[.str kv.1, vToJson kv.2]).toArray) st.cur
+  | "sorted_keys" =>
+    outState (.arr ((getSortedKeys Jap.Gen.metaKeys (getBool j "branches") st.cur).map Json.str).toArray) st.cur
+  | "strip_meta" => outState (vToJson (.ns (stripMeta Jap.Gen.metaKeys st.cur))) st.cur
   | "as_dict" => outState (vToJson (.dct (asDict st.cur))) st.cur
   | "clone_eq" => outState (.bool (veq (.ns (clone st.cur)) (.ns st.cur))) st.cur
   | "clone_swap" => outState .null (clone st.cur)
